@@ -127,8 +127,11 @@ def run_unit(root, module, prop, tier, seed, rebaseline=False):
     if r["status"] == "compile-error":
         # the helper has no spec form (or was not found that way): replace its calls by its body, when that is meaning-preserving
         try:
-            u3, helpers = _inline_helpers(unit, root, r)
-            if u3 is not None:
+            prior, rk = [], r
+            for _round in range(3):        # a helper may call another new helper: up to three rounds
+                u3, helpers = _inline_helpers(unit, root, rk, prior)
+                if u3 is None:
+                    break
                 text3, meta3 = gen.generate(u3, root, rules)
                 with open(path, "w") as f:
                     f.write(text3)
@@ -139,9 +142,13 @@ def run_unit(root, module, prop, tier, seed, rebaseline=False):
                     rec["items"] = meta["items"]
                     rec["rewrites"] = meta["rewrites"]
                     rec["assumptions"] = scan_assumptions(text)
-                else:
-                    with open(path, "w") as f:
-                        f.write(text)
+                    break
+                if list(u3._inlined) == list(prior):
+                    break
+                prior, rk = list(u3._inlined), r3
+            if r["status"] == "compile-error":
+                with open(path, "w") as f:
+                    f.write(text)
         except Exception:
             pass
     attempts = [r]
@@ -295,7 +302,7 @@ def _find_helper(unit, name):
     return found[0] if len(found) == 1 else None
 
 
-def _inline_helpers(unit, root, r):
+def _inline_helpers(unit, root, r, prior=()):
     """Second fallback for a call to a function the unit does not contain (a helper a change introduced), when the helper has no spec form:
     the call is replaced, mechanically, by the helper's body as a block — `h(a, b)` becomes `{ let p: P = a; let q: Q = b; BODY }` — in every
     function item of the unit.  Meaning-preserving for a FREE function — or a method called on `self`, whose `self` is then the caller's — that is non-recursive and whose body has no `return` and no `?` (both would leave the
@@ -316,6 +323,12 @@ def _inline_helpers(unit, root, r):
             methods.add(mt.group(1))      # a method: only calls on `self` are followed (the helper's `self` is then the caller's)
     if not names:
         return None, []
+    # helpers inlined in an earlier round come first: a helper that the body of an inlined helper calls appears in the text only after that inlining
+    for pn, pm in reversed(list(prior)):
+        if pn not in names:
+            names.insert(0, pn)
+            if pm:
+                methods.add(pn)
     helpers = {}
     for name in names:
         hit = _find_helper(unit, name)
@@ -374,6 +387,7 @@ def _inline_helpers(unit, root, r):
         else:
             items.append(it)
     u2.items = items
+    u2._inlined = [(n, n in methods) for n in names]
     return u2, names
 
 
